@@ -855,12 +855,9 @@ Section User.
   Proof.
     intro L. pose proof (l_w _ L) as W.
     pose proof (release_permit_other s) as (R1 & R2 & R3 & R4 & R5 & R6 & R7).
-    destruct (release_permit_shape s W) as [(_ & Ec & Ew)|(w & ws & k & E & Hk & Hp & Ec & Ew)].
+    destruct (release_permit_shape s W) as [(E0 & Ec & Ew)|(w & ws & k & E & Hk & Hp & Ec & Ew)].
     - eapply Live_eq; [exact Ec|exact R1|exact R2|exact R3|exact R4| |exact R5|exact R6|exact L].
-      destruct (waiters s) eqn:E; [unfold release_permit; rewrite E; reflexivity|].
-      unfold release_permit in Ew. rewrite E in Ew. rewrite set_phase_alt in Ew. cbn in Ew.
-      unfold release_permit. rewrite E. exfalso.
-      destruct (release_permit_shape s W) as [(X & _)|(? & ? & ? & X & _)]; congruence.
+      congruence.
     - eapply (Live_phase s _ w k PAssigned (get_slot s (c_id k)) []); try exact L; try exact Hk;
         try assumption.
       + intro id. unfold get_slot at 1. rewrite R3. apply get_slot_same_if.
@@ -943,7 +940,7 @@ Section User.
         - rewrite Hp. discriminate. }
       assert (ZA : TT (set_phase s i PClosing) (c_id k) = 0%nat).
       { eapply (TT_retire s _ i k PClosing); try exact L; try exact Hk;
-          try (rewrite set_phase_alt; reflexivity). rewrite Hp. reflexivity. }
+          try (rewrite set_phase_alt; reflexivity); [rewrite Hp; reflexivity|reflexivity]. }
       set (s1 := set_phase s i PClosing) in *.
       set (s2 := if rx_closed s1 then upd_q s1 (S (permits s1)) (queue s1) (waiters s1) true
                  else release_permit s1).
